@@ -184,7 +184,7 @@ def random_scenario(rng, idx, fixed=False):
         rng.shuffle(order)
     for _ in range(rng.randrange(0, 4)):
         order.insert(rng.randrange(0, len(order) + 1), rng.randrange(1, nb + 1))
-    sc = {"name": ("rndB%d" if fixed else "rnd%d") % idx, "iv": iv, "cap": rng.choice([2, 3, 100]), "blocks": blocks,
+    sc = {"genesis": rng.choice([0, 7, 9, 5, 3, 21]) if fixed else 0, "name": ("rndB%d" if fixed else "rnd%d") % idx, "iv": iv, "cap": rng.choice([2, 3, 100]), "blocks": blocks,
           "cl": {str(k): v for k, v in cl.items()}, "ops": [["D", o] for o in order]}
     # the wrongkey signer must differ from the key named in the header; resolved by the engine when key<0,
     # so a coincidence only makes the block honest: the model takes sig_ok from the engine-independent rule below
@@ -217,6 +217,9 @@ def for_real_dpos(scenarios):
             elif b["key"] >= 0:
                 b["key"] = FIXED_SET[old.index(b["key"])]
         c["cl"] = {k: list(FIXED_SET) for k in c["cl"]}
+        # BP count the node booted with (Init argument of dpos.New): equal to the set in force, or another
+        # one (an election changed the size since): the slot rotation must follow the CURRENT size
+        c["genesis"] = (7, 9, 5, 3)[len(res) % 4]
         res.append(c)
     return res
 
@@ -501,6 +504,19 @@ def direct_predicates(sc, out):
             if fut_now and i not in prev_store:
                 fails.append(("C09:future-block-reported-accepted",
                               "addBlock returned nil for block %d which is two or more slots ahead of the clock" % i, rep()))
+        # a block refused by IsBlockValid although its signer owns its slot in the set in force at that call
+        last, k = None, 0
+        while k < len(c):
+            last = (c[k], c[k + 1], c[k + 2] if c[k] == 6 else None)
+            k += 3 if c[k] == 6 else 2
+        if ob["r"] in ("invalid", "reorg") and last and last[0] == 6 and last[1] in blocks:
+            bj, members = blocks[last[1]], sc["cl"].get(str(last[2]))
+            if members and bj["signer"] in members:
+                idx = len(members) - 1 - members[::-1].index(bj["signer"])
+                if next_index(bj["ts"] // 10 ** 6, ivms) % len(members) == idx:
+                    fails.append(("C09:slot-owner-refused",
+                                  "block %d by the producer owning its slot in the current set (%d producers) is refused by IsBlockValid"
+                                  % (last[1], len(members)), rep()))
         for where, ids in (("main chain", ob["main"]), ("chain DB", ob["store"]), ("orphan pool", ob["orph"])):
             for j in ids:
                 if j == 0:
